@@ -656,12 +656,12 @@ class CrystalMap:
         elif isinstance(key, np.ndarray) and key.dtype == np.bool_:
             # From boolean numpy array
             is_in_data = key
-        elif isinstance(key, (slice, int)) or (
+        elif isinstance(key, (slice, int, np.integer)) or (
             isinstance(key, tuple)
-            and any([(isinstance(i, slice) or isinstance(i, int)) for i in key])
+            and any([isinstance(i, (slice, int, np.integer)) for i in key])
         ):
             # From slice(s) or int
-            if isinstance(key, (slice, int)):
+            if isinstance(key, (slice, int, np.integer)):
                 key = (key,)
 
             slices = [slice(None, None, None)] * self.ndim
